@@ -708,8 +708,11 @@ func (c *FnCtx) applySpecFunc1(sc *specCtx, f *SpecFunc, args []*Term, e *SExpr)
 	}
 	sc2 := &specCtx{st: sc.st, env: env, old: sc.old, site: token.NoPos}
 	c.specDepth++
-	r := c.sev(sc2, f.Body)
-	c.specDepth--
+	var r *Term
+	func() {
+		defer func() { c.specDepth-- }()
+		r = c.sev(sc2, f.Body)
+	}()
 	if f.Result != "" {
 		rt := c.resolveType(f.Result, e)
 		if r.GoT == nil {
@@ -990,10 +993,16 @@ func (c *FnCtx) applyDefinedFunc(sc *specCtx, f *SpecFunc, args []*Term, e *SExp
 		c.qdepth += 1
 		savePre := c.pre
 		c.pre = nil
-		body := c.sev(sc2, f.Body)
-		c.pre = savePre
-		c.qdepth = saveDepth
-		c.specDepth--
+		var body *Term
+		func() {
+			// restore the context also when the body cannot be evaluated (the panic is recovered further up)
+			defer func() {
+				c.pre = savePre
+				c.qdepth = saveDepth
+				c.specDepth--
+			}()
+			body = c.sev(sc2, f.Body)
+		}()
 		def = &specDef{name: "sf_" + sanitize(f.Name), resSort: body.Sort, resType: body.GoT}
 		if mentions(body, "alloc$tmpl") {
 			// the allocation watermark becomes a parameter
